@@ -49,6 +49,8 @@ def run(prog, chk):
     if len(emits) < 9:
         raise AnalysisBroken("only %d emit arities instantiated (witness unit)" % len(emits))
     cb = [f for f in prog.functions.values() if f.file.endswith("src/Callback.cpp")]
+    _erase_rule(prog, chk)
+    dirty_cleared_after_sweep(prog, chk, "C12.i")
     if len(cb) < 6:
         raise AnalysisBroken("Callback.cpp: only %d functions" % len(cb))
 
@@ -127,30 +129,7 @@ def run(prog, chk):
             t = f.r(c)
             if not re.search(r"slots\.remove\(", t):
                 continue
-            atoms = fin.dominating_atoms(f, f.node_pos(c))
-            idle = False
-            for a in atoms:
-                if a[0] == "case":
-                    continue
-                k = fin.key(f, a[0])
-                if re.search(r"(\.|->)activation$", k) and not a[1]:
-                    idle = True
-                # ~SignalActivation: `!(data->activation = next)` true, i.e. the assigned value is null
-                if re.search(r"->activation = ", k) and not a[1] and f.nodes[f.strip(a[0])]["k"] == "BinaryOperator":
-                    idle = True
-                if re.match(r"^this->data->activation$", k) and not a[1]:
-                    idle = True
-            if not idle:
-                # `data->activation = next; if(next ...) return;`: the value just stored into activation is what the dominating test found null
-                for s_ in q.stores(f):
-                    if s_.rhs is None or s_.op != "=" or not re.search(r"(\.|->)activation$", q.no_casts(f.r(s_.lhs))):
-                        continue
-                    if not f.dominates_pos(f.node_pos(s_.node), f.node_pos(c)) and not fin.always_before(f, f.node_pos(c), [s_.node]):
-                        continue
-                    kr = fin.key(f, s_.rhs)
-                    if any(a[0] != "case" and not a[1] and fin.key(f, a[0]) == kr for a in atoms) and \
-                       not any(o.node != s_.node and re.search(r"(\.|->)activation$", q.no_casts(f.r(o.lhs))) and q.reaches(f, s_.node, o.node) and q.reaches(f, o.node, c) for o in q.stores(f)):
-                        idle = True
+            idle, atoms = _idle_at(f, c)
             if idle:
                 chk.ok("C12.b", f, "slots.remove() only when no emission is active", f.where(c), "dominated by the activation-is-null edge", evals=len(atoms))
             else:
@@ -421,3 +400,60 @@ def run(prog, chk):
     else:
         chk.bad("C12.e", f, "emitter-destructor-invalidation", "%s:%s" % (f.file, f.line), "~Emitter does not invalidate active emissions (an emit() in progress continues on a destroyed emitter)")
     wit.not_copyable(prog, chk, "C12.f", ["Callback::Emitter", "Callback::Listener"])
+
+
+def _erase_rule(prog, chk):
+    fs = [f for f in prog.functions.values() if f.file.endswith("Callback.cpp") or f.file.endswith("Callback.hpp")]
+    C.erase_then_step(prog, chk, "C12.h", fs)
+
+
+def _idle_at(f, c):
+    """is node c evaluated only while no emission of the signal is active (the activation chain head is known null)?"""
+    atoms = fin.dominating_atoms(f, f.node_pos(c))
+    idle = False
+    for a in atoms:
+        if a[0] == "case":
+            continue
+        k = fin.key(f, a[0])
+        if re.search(r"(\.|->)activation$", k) and not a[1]:
+            idle = True
+        # ~SignalActivation: `!(data->activation = next)` true, i.e. the assigned value is null
+        if re.search(r"->activation = ", k) and not a[1] and f.nodes[f.strip(a[0])]["k"] == "BinaryOperator":
+            idle = True
+        if re.match(r"^this->data->activation$", k) and not a[1]:
+            idle = True
+    if not idle:
+        # `data->activation = next; if(next ...) return;`: the value just stored into activation is what the dominating test found null
+        for s_ in q.stores(f):
+            if s_.rhs is None or s_.op != "=" or not re.search(r"(\.|->)activation$", q.no_casts(f.r(s_.lhs))):
+                continue
+            if not f.dominates_pos(f.node_pos(s_.node), f.node_pos(c)) and not fin.always_before(f, f.node_pos(c), [s_.node]):
+                continue
+            kr = fin.key(f, s_.rhs)
+            if any(a[0] != "case" and not a[1] and fin.key(f, a[0]) == kr for a in atoms) and \
+               not any(o.node != s_.node and re.search(r"(\.|->)activation$", q.no_casts(f.r(o.lhs))) and q.reaches(f, s_.node, o.node) and q.reaches(f, o.node, c) for o in q.stores(f)):
+                idle = True
+    return idle, atoms
+
+
+def dirty_cleared_after_sweep(prog, chk, rid):
+    """`dirty` says that marked entries wait for the sweep that runs when the outermost emission ends: clearing it anywhere else
+    (e.g. when a nested emission starts) cancels the sweep - entries connected during the emission are never promoted"""
+    chk.rule(rid, "DOM: `dirty = false` is stored only where no emission is active any more (the activation chain head is known null), i.e. "
+                  "by the sweep itself", floor=1)
+    n = 0
+    for f in [g for g in prog.functions.values() if g.file.endswith("src/Callback.cpp") and g.blocks]:
+        for st_ in q.stores(f):
+            if not re.search(r"(->|\.)dirty$", q.no_casts(f.r(st_.lhs))) or st_.rhs is None or fin.eval_expr(f, st_.rhs, {}) != 0:
+                continue
+            n += 1
+            idle, atoms = _idle_at(f, st_.node)
+            if idle:
+                chk.ok(rid, f, "dirty cleared with no emission active", f.where(st_.node), "dominated by the activation-is-null edge", evals=len(atoms) + 1)
+            else:
+                chk.bad(rid, f, "dirty-cleared-during-emission", f.where(st_.node),
+                        "`%s` runs while an emission of the signal may be active (nothing says the activation chain is empty): the sweep that the "
+                        "flag announces is skipped when the outermost emission ends, entries marked `connecting` are never promoted and "
+                        "`disconnected` ones never removed" % f.r(st_.node), evals=len(atoms) + 1)
+    if not n:
+        raise AnalysisBroken("no store `dirty = false` found in Callback.cpp")
